@@ -27,6 +27,7 @@ RULE = ("invariants asserted at the quiescent points of every real run "
         "changed / any direct-drive batch; distinct = (decades of rho0/rhof, "
         "constants bucket, problem class)")
 RULE += ("  Also: radii at the far ends of the floating-point range (1e-300..1e-100, 1e100..1e290) in the direct drive.")
+RULE += (' The final radius the framework works with is the one the user stated (capped at the adjusted initial radius).')
 ASSUMPTIONS = [
     "merit = f + penalty * ||(linear violations, max(c_ub,0), |c_eq|)||_2 "
     "recomputed from copies; slack npt*10*eps*max(n,npt)*max(|m|,1) (the "
